@@ -722,3 +722,28 @@ Lemma agent_output_persist t l fs :
   List.length (h_log (agent_so_steps t l fs [])) = List.length l /\
   Forall (fun ec => file_at (fst ec) (h_fs (agent_so_steps t l fs [])) = Some (snd ec)) (h_log (agent_so_steps t l fs [])).
 Proof. exact (steps_persist (agent_out_step t) (agent_out_frame t) l fs). Qed.
+
+(* ---- concrete sandboxes / tree used by the examples of Props/C11.v *)
+Definition ex_sb (uid : string) : sandboxes :=
+  {| sb_client := "/R/client"; sb_task := "file://localhost/R/rsb/s1/p0/" +++ uid +++ "/";
+     sb_pilot := "file://localhost/R/rsb/s1/p0/"; sb_session := "file://localhost/R/rsb/s1";
+     sb_resource := "file://localhost/R/rsb"; sb_endpoint := "file://localhost/" |}.
+
+Definition ex_fs : fsys :=
+  [ (["R"], D); (["R"; "client"], D); (["R"; "client"; "a.dat"], F (Plain 1)); (["R"; "client"; "b.dat"], F (Plain 2));
+    (["R"; "rsb"], D); (["R"; "rsb"; "s1"], D); (["R"; "rsb"; "s1"; "p0"], D);
+    (["R"; "rsb"; "s1"; "p0"; "sh.dat"], F (Plain 3)) ].
+
+Definition client_side_b (a : action) : bool := action_eqb a Transfer.
+
+(* finite check: an empty target with each of the four non-tarball actions *)
+Lemma empty_target_staged :
+  forall a, In a [Transfer; Copy; Link; Move] ->
+    let '(_, fs', fin) := run_case
+      [ {| ti_uid := "t0"; ti_sb := ex_sb "t0";
+           ti_in := [ SDict (Some (if client_side_b a then "a.dat" else "pilot:///sh.dat")) (Some "") (Some a) false ];
+           ti_out := []; ti_soe := false; ti_outcome := DONE; ti_exec := [] |} ] ex_fs in
+    map (fun t => last (t_pub t) DONE) fin = [DONE] /\
+    file_at (["R"; "rsb"; "s1"; "p0"; "t0"] ++ [if client_side_b a then "a.dat" else "sh.dat"]) fs'
+      = Some (Plain (if client_side_b a then 1 else 3)).
+Proof. intros a [<-|[<-|[<-|[<-|[]]]]]; vm_compute; split; reflexivity. Qed.
